@@ -427,6 +427,30 @@ def run(ctx, col: Collector):
                             node=last.node, file=new.file)
         if n_bare == 0:
             col.unk('C12-types', '__new__:no-source-is-None', '__new__ has no path that returns the bare factory object (super().__new__(cls))', node=new.node, file=new.file)
+        # a string source IS the document: the constructor neither rebinds its source argument nor looks at the file system with it before the type dispatch
+        rebinds = [n for n in ast.walk(new.node) if isinstance(n, ast.Name) and n.id == p and isinstance(n.ctx, ast.Store)]
+        probes = [c for c in ast.walk(new.node) if isinstance(c, ast.Call) and any(access_path(a) == p for a in c.args)
+                  and ((isinstance(c.func, ast.Attribute) and c.func.attr in ('isfile', 'exists', 'isdir', 'is_file', 'expanduser', 'abspath')) or
+                       (isinstance(c.func, ast.Name) and c.func.id in ('Path',)))]
+        str_probe = None
+        for path in paths:
+            lits = []
+            for ev in path:
+                if ev.kind == 'test':
+                    for c in ast.walk(ev.node):
+                        if any(c is pr for pr in probes) and any(l[0] == 'isinstance' and l[1] == p and 'str' in str(l[2]) for l in lits + conjuncts(term(ev.node, True))):
+                            str_probe = str_probe or c
+                    lits.extend(conjuncts(term(ev.node, ev.outcome)))
+                elif ev.node is not None:
+                    for c in ast.walk(ev.node):
+                        if any(c is pr for pr in probes) and any(l[0] == 'isinstance' and l[1] == p and 'str' in str(l[2]) for l in lits):
+                            str_probe = str_probe or c
+        if rebinds or str_probe is not None:
+            what = f'rebinds its source argument `{p}`' if rebinds else f'probes the file system with a string source (`{norm(str_probe)[:50]}`)'
+            col.bad('C12-types', '__new__:string-is-the-document', f'__new__ {what}: a string that happens to name an existing file is read as that file by PyDBML(text) while '
+                    f'PyDBML.parse(text) parses the text itself - the routes disagree', node=(rebinds[0] if rebinds else str_probe), file=new.file)
+        else:
+            col.ok('C12-types', '__new__:string-is-the-document', 'a string source is parsed as the document text itself', node=new.node, file=new.file)
         for path in paths:
             ts = [term(ev.node, ev.outcome) for ev in path if ev.kind == 'test']
             lits = [c for t in ts for c in conjuncts(t)]
